@@ -27,6 +27,15 @@ LINK_CLASSES = {
 
 
 def reset_globals():
+    """Called whenever a fresh world is built.  Does NOT clear Vertex._CACHE_STATS: several worlds
+    may be alive at once (pre-state, twin, copy) and clearing would silently un-register the
+    vertices of the others.  The engines call new_item() between independent work items."""
+    Vertex.NEIGHBOR_CACHING = False
+
+
+def new_item():
+    """Between independent work items (no world of the previous item is used any more): forget the
+    per-vertex statistics so that the table does not grow without bound in long-lived workers."""
     Vertex.NEIGHBOR_CACHING = False
     Vertex._CACHE_STATS.clear()
 
